@@ -281,7 +281,11 @@ pub fn cmd_walk(jobs_path: &str) {
       if roll < ra_pct {
         let mut unseen = vec![];
         if scripted.is_none() && rng.below(2) == 0 {
-          for _ in 0..(1 + rng.below(2)) { let k = keys[rng.below(keys.len())]; unseen.push(if rng.below(3) == 0 { Released(k) } else { Pressed(k) }); }
+          // keys that are held go up while tablet mode is on (the mapper never hears of it), or other keys move
+          for _ in 0..(1 + rng.below(2)) {
+            if !held.is_empty() && rng.below(3) != 0 { let k = held[rng.below(held.len())]; unseen.push(Released(k)); }
+            else { let k = keys[rng.below(keys.len())]; unseen.push(if rng.below(3) == 0 { Released(k) } else { Pressed(k) }); }
+          }
         }
         if let Some(e) = scripted { if let Some(a) = e["unseen"].as_array() { for x in a { unseen.push(pev(x).unwrap()); } } }
         history.push((None, unseen)); held.clear(); continue;
